@@ -1,4 +1,5 @@
 import ChiaModel.Lemmas.Builders
+import ChiaModel.Lemmas.BuilderBundles
 import ChiaModel.Gen.Builder
 import ChiaModel.Props.C04
 /-
@@ -420,5 +421,370 @@ example : (match native pC gI (some (quoteCost, .pair (Sexp.ofList sC.spends) Se
     | .ok b, some r => decide (quoteCost + 1800005 = b.executionCost + b.conditionCost ∧ r.2.2 = b.cost)
     | _, _ => false) = true := by decide +kernel
 end CostWitness
+
+/-! ## the declared costs are truthful in total: derived from the bundles' mempool validation
+
+`interned_consensus_cost` / `compressed_consensus_cost` take "the declared costs are truthful in total" as a
+hypothesis.  Here it is DERIVED from what the mempool did: every bundle handed to the builder was accepted by
+`run_spendbundle` (`MpRun.Accepted`) and was declared with the execution + condition cost of that run
+(`MpRun.declared` = reported cost − byte cost).  Both cost fields of an accepted run are sums, over the spends, of
+a quantity read off the spend's own puzzle run (`Gn.runExec`, `Gn.runCond`: Lemmas/CostAdditive.lean), on the
+mempool path and on the block path alike; so the totals agree whatever the order in which the builder lists the
+spends.  ACCEPTANCE of the combined block is a hypothesis (it depends on cross-spend conditions); the WF /
+puzzle-hash hypotheses of C08 are not needed for the cost equation.  The puzzle runs are tied together by a
+function `run` of the listed item `(parent puzzle amount solution)`: the `j`-th run of a bundle is `run` of its
+`j`-th item, the `i`-th run of the block is `run` of the `i`-th item of the emitted list (CLVM is deterministic:
+the run of a spend is a function of its puzzle reveal and solution). -/
+
+/-- **The block's execution and condition cost are the sums of the bundles' (any order of the spends).**
+`rs` are spend bundles each accepted by `run_spendbundle`; `all` lists exactly their items, in any order
+(`List.Perm`; the interned builder emits them all reversed, the compressed builder batch by batch, each batch
+reversed).  If `run_block_generator2` accepts a generator whose run returns `all` at cost `c` (20 for the quote),
+then its execution cost is `c` + the sum of the bundles' execution costs, its condition cost is the sum of the
+bundles' condition costs, and so execution + condition cost = `c` + the sum of the declared costs. -/
+theorem bundles_truthful_total (p : Params) (run : Sexp → RunRes) (rs : List MpRun) (all : List Sexp)
+    (g : GenInput) (c : Nat) (puz : Nat → RunRes) (L : Nat) (b : Cond.Bundle)
+    (hacc : ∀ r ∈ rs, r.Accepted p) (hor : ∀ r ∈ rs, r.Oracle run)
+    (hall : all.Perm (rs.flatMap MpRun.items))
+    (hpuz : ∀ i (h : i < all.length), puz i = run all[i])
+    (hrun : native p g (some (c, .pair (Sexp.ofList all) Sexp.nil)) puz L = .ok b) :
+    b.executionCost = c + (rs.map (·.conds.executionCost)).sum ∧
+    b.conditionCost = (rs.map (·.conds.conditionCost)).sum ∧
+    b.executionCost + b.conditionCost = c + (rs.map MpRun.declared).sum := by
+  obtain ⟨e1, e2, _⟩ := native_costs_keyed p run all g c puz L b hpuz hrun
+  have hx : (all.map (fun x => runExec (run x))).sum = (rs.map (·.conds.executionCost)).sum := by
+    rw [(hall.map _).sum_nat, sum_map_flatMap]
+    apply sum_map_congr
+    intro r hr
+    exact (MpRun.costs (hacc r hr) (hor r hr)).1.symm
+  have hy : (all.map (fun x => runCond p.flags (run x))).sum = (rs.map (·.conds.conditionCost)).sum := by
+    rw [(hall.map _).sum_nat, sum_map_flatMap]
+    apply sum_map_congr
+    intro r hr
+    exact (MpRun.costs (hacc r hr) (hor r hr)).2.symm
+  have hd : (rs.map MpRun.declared).sum = (rs.map (·.conds.executionCost)).sum + (rs.map (·.conds.conditionCost)).sum :=
+    sum_map_add (·.conds.executionCost) (·.conds.conditionCost) rs
+  refine ⟨by rw [e1, hx], by rw [e2, hy], by rw [e1, e2, hx, hy, hd]; omega⟩
+
+/-- **The same with positional puzzle oracles, in the interned builder's order** (the re-indexing of C08
+`bundle_path_eq_block_path`: `fun i => puz (n − 1 − i)`).  `q` lists the puzzle runs of all coin spends of the
+bundles `rs` in mempool order (bundle after bundle: `SegmentsOf q 0 rs`); the block lists all their items
+REVERSED (last spend first, as `InternedBlockBuilder` conses them) and its `i`-th puzzle run is `q (N − 1 − i)`,
+`N` the number of spends.  No assumption that equal items have equal runs. -/
+theorem bundles_truthful_total_reversed (p : Params) (rs : List MpRun) (q : Nat → RunRes)
+    (g : GenInput) (c : Nat) (puz : Nat → RunRes) (L : Nat) (b : Cond.Bundle)
+    (hacc : ∀ r ∈ rs, r.Accepted p) (hseg : SegmentsOf q 0 rs)
+    (hpuz : ∀ i, i < totalSpends rs → puz i = q (totalSpends rs - 1 - i))
+    (hrun : native p g (some (c, .pair (Sexp.ofList (rs.flatMap MpRun.items).reverse) Sexp.nil)) puz L = .ok b) :
+    b.executionCost = c + (rs.map (·.conds.executionCost)).sum ∧
+    b.conditionCost = (rs.map (·.conds.conditionCost)).sum ∧
+    b.executionCost + b.conditionCost = c + (rs.map MpRun.declared).sum := by
+  obtain ⟨e1, e2⟩ := native_costs p g c _ (Sexp.ofList (rs.flatMap MpRun.items).reverse) puz L b rfl hrun
+  rw [listElems_ofList, List.length_reverse, length_flatMap_items, oracleVals_reverse puz q _ hpuz, List.map_reverse,
+    List.sum_reverse_nat] at e1 e2
+  obtain ⟨s1, s2⟩ := SegmentsOf.costs (p := p) rs 0 hseg hacc
+  have hd : (rs.map MpRun.declared).sum = (rs.map (·.conds.executionCost)).sum + (rs.map (·.conds.conditionCost)).sum :=
+    sum_map_add (·.conds.executionCost) (·.conds.conditionCost) rs
+  refine ⟨by rw [e1, s1], by rw [e2, s2], by rw [e1, e2, hd, s1, s2]; omega⟩
+
+/-- **Consensus cost of the interned builder's block, positional oracles.**  As
+`interned_consensus_cost_of_bundles`, with the puzzle runs tied together by position instead of by a function of
+the item: the builder's spend list is the items of all coin spends of all accepted bundles completely reversed
+(first conclusion), `q` lists their puzzle runs in the order added, and the block's `i`-th run is `q (N − 1 − i)`. -/
+theorem interned_consensus_cost_of_bundles_reindexed (cpb maxCost : Nat) (hc : Cfg wrapperVbytes cpb maxCost) (ops : List Add)
+    (hs : AllSmall cpb ops) (p : Params) (q : Nat → RunRes) (mp : Add → List MpRun)
+    (hfrom : ∀ op ∈ (ISt.init cpb maxCost).accepted ops, op.From p (mp op))
+    (rs : List MpRun) (hrs : rs = ((ISt.init cpb maxCost).accepted ops).flatMap mp) (hseg : SegmentsOf q 0 rs)
+    (s : ISt) (hsdef : s = (ISt.init cpb maxCost).run ops)
+    (g : GenInput) (puz : Nat → RunRes) (L : Nat) (b : Cond.Bundle)
+    (hflag : Cond.hasFlag p.flags Gen.flagInternedGenerator = true) (hcpb : p.costPerByte = cpb)
+    (hprog : g.prog = generator s.spends)
+    (hpuz : ∀ i, i < totalSpends rs → puz i = q (totalSpends rs - 1 - i))
+    (hrun : native p g (some (quoteCost, .pair (Sexp.ofList s.spends) Sexp.nil)) puz L = .ok b) :
+    s.spends = (rs.flatMap MpRun.items).reverse ∧
+    quoteCost + (rs.map MpRun.declared).sum = b.executionCost + b.conditionCost ∧
+    s.blockCost = b.executionCost + b.conditionCost ∧
+    s.finalCost = b.cost ∧ ∃ r, s.finalize = some r ∧ r.2.2 = b.cost := by
+  have hord : s.spends = (rs.flatMap MpRun.items).reverse := by
+    rw [hsdef, hrs]; exact ISt.spends_reversed mp ops (ISt.init cpb maxCost) rfl hfrom
+  have hbc := ISt.blockCost_run ops (IInv.init hc) hs
+  have hb0 : (ISt.init cpb maxCost).blockCost = quoteCost := rfl
+  rw [hb0, ← hsdef] at hbc
+  have hacc : ∀ r ∈ rs, r.Accepted p := by
+    intro r hr
+    rw [hrs, List.mem_flatMap] at hr
+    obtain ⟨op, hop, hr⟩ := hr
+    exact (hfrom op hop).accepted r hr
+  have hdecl : (((ISt.init cpb maxCost).accepted ops).map (·.cost)).sum = (rs.map MpRun.declared).sum := by
+    rw [hrs, sum_map_flatMap]
+    exact sum_map_congr _ _ _ (fun op hop => (hfrom op hop).cost)
+  have hrun' := hrun
+  rw [hord] at hrun'
+  obtain ⟨_, _, e3⟩ := bundles_truthful_total_reversed p rs q g quoteCost puz L b hacc hseg hpuz hrun'
+  have htruth : quoteCost + (((ISt.init cpb maxCost).accepted ops).map (·.cost)).sum = b.executionCost + b.conditionCost := by
+    rw [e3, hdecl]
+  obtain ⟨u1, u2, u3, _⟩ := interned_estimate_upper cpb maxCost hc ops hs
+  rw [← hsdef] at u1 u2 u3
+  obtain ⟨_, _, o3, o4⟩ := ISt.run_obs ops (ISt.init cpb maxCost)
+  have o3' : s.cpb = cpb := by rw [hsdef]; exact o3
+  have o4' : s.maxCost = maxCost := by rw [hsdef]; exact o4
+  have hmax := hc.max_lt
+  have hsmall : internedVbytes (generator s.spends) * s.cpb + s.blockCost < W := by
+    have hW : W = 2 ^ 64 := rfl
+    rw [o3']; omega
+  have hfc := interned_consensus_cost s _ p g puz L b hflag (by rw [o3']; exact hcpb) hprog hbc hrun htruth hsmall
+  refine ⟨hord, by rw [← hdecl]; exact htruth, by rw [hbc]; exact htruth, hfc, (generator s.spends, s.sig, s.finalCost), ?_, hfc⟩
+  have hle : s.finalCost ≤ s.maxCost := by rw [o4']; omega
+  unfold ISt.finalCost at hle
+  unfold ISt.finalize ISt.finalCost
+  simp only
+  rw [if_pos hle]
+
+/-- **Consensus cost of the interned builder's block, from per-bundle mempool acceptance.**  Any history `ops`
+of `add_spend_bundles` calls on a fresh builder (constants `Cfg`, small adds); every ACCEPTED batch `op` was
+assembled from bundles `mp op` that `run_spendbundle` accepted, and declares the sum of their declared costs
+(`Add.From`); the puzzle runs of the bundles and of the block are those of `run` (`MpRun.Oracle`, `hpuz`).  If `run_block_generator2` (INTERNED_GENERATOR, same cost-per-byte) accepts the generator the
+builder emits, then: the hypothesis `htruth` of `interned_consensus_cost` holds (20 + the accepted declared
+costs = execution + condition cost of the block's own run), that is the builder's `block_cost`, `finalize`
+returns, and the cost it returns equals the cost consensus validation charges for the block. -/
+theorem interned_consensus_cost_of_bundles (cpb maxCost : Nat) (hc : Cfg wrapperVbytes cpb maxCost) (ops : List Add)
+    (hs : AllSmall cpb ops) (p : Params) (run : Sexp → RunRes) (mp : Add → List MpRun)
+    (hfrom : ∀ op ∈ (ISt.init cpb maxCost).accepted ops, op.From p (mp op))
+    (hor : ∀ op ∈ (ISt.init cpb maxCost).accepted ops, ∀ r ∈ mp op, r.Oracle run)
+    (s : ISt) (hsdef : s = (ISt.init cpb maxCost).run ops)
+    (g : GenInput) (puz : Nat → RunRes) (L : Nat) (b : Cond.Bundle)
+    (hflag : Cond.hasFlag p.flags Gen.flagInternedGenerator = true) (hcpb : p.costPerByte = cpb)
+    (hprog : g.prog = generator s.spends)
+    (hpuz : ∀ i (h : i < s.spends.length), puz i = run s.spends[i])
+    (hrun : native p g (some (quoteCost, .pair (Sexp.ofList s.spends) Sexp.nil)) puz L = .ok b) :
+    quoteCost + (((ISt.init cpb maxCost).accepted ops).map (·.cost)).sum = b.executionCost + b.conditionCost ∧
+    s.blockCost = b.executionCost + b.conditionCost ∧
+    s.finalCost = b.cost ∧ ∃ r, s.finalize = some r ∧ r.2.2 = b.cost := by
+  have hbc := ISt.blockCost_run ops (IInv.init hc) hs
+  have hb0 : (ISt.init cpb maxCost).blockCost = quoteCost := rfl
+  rw [hb0, ← hsdef] at hbc
+  have hsum := ISt.spends_sum (fun x => runCost p.flags (run x)) ops (ISt.init cpb maxCost)
+  have hs0 : ((ISt.init cpb maxCost).spends.map (fun x => runCost p.flags (run x))).sum = 0 := rfl
+  rw [hs0, ← hsdef, Nat.add_zero] at hsum
+  have hdecl : (((ISt.init cpb maxCost).accepted ops).map (·.cost)).sum =
+      (((ISt.init cpb maxCost).accepted ops).map (fun op => (op.items.map (fun x => runCost p.flags (run x))).sum)).sum :=
+    sum_map_congr _ _ _ (fun op hop => (hfrom op hop).cost_eq (hor op hop))
+  obtain ⟨_, _, e3⟩ := native_costs_keyed p run s.spends g quoteCost puz L b hpuz hrun
+  have htruth : quoteCost + (((ISt.init cpb maxCost).accepted ops).map (·.cost)).sum = b.executionCost + b.conditionCost := by
+    rw [e3, hsum, hdecl]
+  obtain ⟨u1, u2, u3, _⟩ := interned_estimate_upper cpb maxCost hc ops hs
+  rw [← hsdef] at u1 u2 u3
+  obtain ⟨_, _, o3, o4⟩ := ISt.run_obs ops (ISt.init cpb maxCost)
+  have o3' : s.cpb = cpb := by rw [hsdef]; exact o3
+  have o4' : s.maxCost = maxCost := by rw [hsdef]; exact o4
+  have hmax := hc.max_lt
+  have hsmall : internedVbytes (generator s.spends) * s.cpb + s.blockCost < W := by
+    have hW : W = 2 ^ 64 := rfl
+    rw [o3']; omega
+  have hfc := interned_consensus_cost s _ p g puz L b hflag (by rw [o3']; exact hcpb) hprog hbc hrun htruth hsmall
+  refine ⟨htruth, by rw [hbc]; exact htruth, hfc, (generator s.spends, s.sig, s.finalCost), ?_, hfc⟩
+  have hle : s.finalCost ≤ s.maxCost := by rw [o4']; omega
+  unfold ISt.finalCost at hle
+  unfold ISt.finalize ISt.finalCost
+  simp only
+  rw [if_pos hle]
+
+/-- **Consensus cost of the compressed builder's block, from per-bundle mempool acceptance** (byte-cost mode).
+Same setting for `BlockBuilder` (constants `Cfg`, small adds, serializer contract along the history and for the
+closing bytes): if `run_block_generator2` (without INTERNED_GENERATOR) accepts a generator of the emitted
+length `finalSize` that decodes to the builder's spend list, then 20 + the accepted declared costs =
+execution + condition cost of that run = the builder's `block_cost`, `finalize` returns, and the cost it
+returns equals the cost consensus validation charges for the block. -/
+theorem compressed_consensus_cost_of_bundles (cpb maxCost : Nat) (hc : Cfg 5 cpb maxCost) (ops : List Add)
+    (hs : AllSmall cpb ops) (hser : ContractAlong (CSt.init cpb maxCost) ops) (finalSize : Nat)
+    (hf : FinContract ((CSt.init cpb maxCost).run ops) finalSize)
+    (p : Params) (run : Sexp → RunRes) (mp : Add → List MpRun)
+    (hfrom : ∀ op ∈ (CSt.init cpb maxCost).accepted ops, op.From p (mp op))
+    (hor : ∀ op ∈ (CSt.init cpb maxCost).accepted ops, ∀ r ∈ mp op, r.Oracle run)
+    (s : CSt) (hsdef : s = (CSt.init cpb maxCost).run ops)
+    (g : GenInput) (puz : Nat → RunRes) (L : Nat) (b : Cond.Bundle)
+    (hflag : Cond.hasFlag p.flags Gen.flagInternedGenerator = false) (hcpb : p.costPerByte = cpb)
+    (hlen : g.len = finalSize)
+    (hpuz : ∀ i (h : i < s.spends.length), puz i = run s.spends[i])
+    (hrun : native p g (some (quoteCost, .pair (Sexp.ofList s.spends) Sexp.nil)) puz L = .ok b) :
+    quoteCost + (((CSt.init cpb maxCost).accepted ops).map (·.cost)).sum = b.executionCost + b.conditionCost ∧
+    s.blockCost = b.executionCost + b.conditionCost ∧
+    ∃ r, s.finalize finalSize = some r ∧ r.2.2 = b.cost := by
+  have hbc := CSt.blockCost_run ops (CInv.init hc) hs hser
+  have hb0 : (CSt.init cpb maxCost).blockCost = quoteCost := rfl
+  rw [hb0, ← hsdef] at hbc
+  have hsum := CSt.spends_sum (fun x => runCost p.flags (run x)) ops (CSt.init cpb maxCost)
+  have hs0 : ((CSt.init cpb maxCost).spends.map (fun x => runCost p.flags (run x))).sum = 0 := rfl
+  rw [hs0, ← hsdef, Nat.zero_add] at hsum
+  have hdecl : (((CSt.init cpb maxCost).accepted ops).map (·.cost)).sum =
+      (((CSt.init cpb maxCost).accepted ops).map (fun op => (op.items.map (fun x => runCost p.flags (run x))).sum)).sum :=
+    sum_map_congr _ _ _ (fun op hop => (hfrom op hop).cost_eq (hor op hop))
+  obtain ⟨_, _, e3⟩ := native_costs_keyed p run s.spends g quoteCost puz L b hpuz hrun
+  have htruth : quoteCost + (((CSt.init cpb maxCost).accepted ops).map (·.cost)).sum = b.executionCost + b.conditionCost := by
+    rw [e3, hsum, hdecl]
+  obtain ⟨r, hr, hle, hval⟩ := compressed_within_limit cpb maxCost hc ops hs hser finalSize hf
+  rw [← hsdef] at hr hval
+  obtain ⟨_, _, o3, _⟩ := CSt.run_obs ops (CSt.init cpb maxCost)
+  have o3' : s.cpb = cpb := by rw [hsdef]; exact o3
+  have hmax := hc.max_lt
+  have hsmall : finalSize * s.cpb + s.blockCost < W := by
+    have hW : W = 2 ^ 64 := rfl
+    rw [o3']; omega
+  exact ⟨htruth, by rw [hbc]; exact htruth, r, hr,
+    compressed_consensus_cost s finalSize _ p g puz L b r hflag (by rw [o3']; exact hcpb) hlen hbc hrun htruth hsmall hr⟩
+
+namespace BundleWitness
+open CostWitness
+/-! non-vacuity of `interned_consensus_cost_of_bundles` / `compressed_consensus_cost_of_bundles`: two one-spend
+bundles (the spend of `CostWitness` and the same spend of another coin), each validated by `run_spendbundle`
+and declared with 1 800 005 = puzzle run 5 + CREATE_COIN 1 800 000, added by two calls; both calls are accepted,
+and the block of both spends is accepted by `run_block_generator2`. -/
+def csA : CoinSpendM :=
+  { parent := List.replicate 32 7, puzzleHash := Sexp.treeHash (.atom [1]), amount := 2,
+    puzzle := .atom [1], solution := Sexp.nil, puzzleLen := 1, solutionLen := 1 }
+def csB : CoinSpendM := { csA with parent := List.replicate 32 8 }
+def runW : Sexp → RunRes := fun _ => some (5, conds1)
+def limitW : Nat := 11000000000
+def opA (sizeAfter sizeRestored : Nat) : Add :=
+  { bundles := [{ spends := [toSpend csA], sigTag := 1 }], cost := 1800005, sizeAfter := sizeAfter, sizeRestored := sizeRestored }
+def opB (sizeAfter sizeRestored : Nat) : Add :=
+  { bundles := [{ spends := [toSpend csB], sigTag := 2 }], cost := 1800005, sizeAfter := sizeAfter, sizeRestored := sizeRestored }
+def opsW : List Add := [opA 50 3, opB 90 50]
+def mpW (p : Params) : Add → List MpRun :=
+  fun op => if op.tags = [1] then [mpRun p [csA] puz1 limitW] else [mpRun p [csB] puz1 limitW]
+
+example : item csA = spend1 := by decide
+
+theorem fromW (p : Params) (hA : (runSpendbundle p [csA] puz1 limitW).toBool = true)
+    (hB : (runSpendbundle p [csB] puz1 limitW).toBool = true)
+    (hdA : (mpRun p [csA] puz1 limitW).declared = 1800005) (hdB : (mpRun p [csB] puz1 limitW).declared = 1800005) :
+    ∀ op ∈ opsW, op.From p (mpW p op) ∧ ∀ r ∈ mpW p op, r.Oracle runW := by
+  intro op hop
+  simp only [opsW, List.mem_cons, List.not_mem_nil, or_false] at hop
+  rcases hop with rfl | rfl
+  · have hm : mpW p (opA 50 3) = [mpRun p [csA] puz1 limitW] := rfl
+    rw [hm]
+    refine ⟨⟨by simp only [List.map_cons, List.map_nil, mpRun_css]; rfl, ?_, ?_⟩, ?_⟩
+    · intro r hr; simp only [List.mem_cons, List.not_mem_nil, or_false] at hr; subst hr; exact mpRun_accepted hA
+    · simp only [List.map_cons, List.map_nil, List.sum_cons, List.sum_nil, hdA]; rfl
+    · intro r hr; simp only [List.mem_cons, List.not_mem_nil, or_false] at hr; subst hr
+      intro j _; rw [mpRun_puz]; rfl
+  · have hm : mpW p (opB 90 50) = [mpRun p [csB] puz1 limitW] := rfl
+    rw [hm]
+    refine ⟨⟨by simp only [List.map_cons, List.map_nil, mpRun_css]; rfl, ?_, ?_⟩, ?_⟩
+    · intro r hr; simp only [List.mem_cons, List.not_mem_nil, or_false] at hr; subst hr; exact mpRun_accepted hB
+    · simp only [List.map_cons, List.map_nil, List.sum_cons, List.sum_nil, hdB]; rfl
+    · intro r hr; simp only [List.mem_cons, List.not_mem_nil, or_false] at hr; subst hr
+      intro j _; rw [mpRun_puz]; rfl
+
+theorem smallW : AllSmall Gen.costPerByte opsW := by
+  intro op hop
+  simp only [opsW, List.mem_cons, List.not_mem_nil, or_false] at hop
+  rcases hop with rfl | rfl <;> exact ⟨by decide +kernel, by decide +kernel, by decide +kernel, by decide +kernel⟩
+
+def sIW : ISt := (ISt.init Gen.costPerByte limitW).run opsW
+def gIW : GenInput := { len := 0, startsQuote := true, prog := generator sIW.spends, nrefs := 0 }
+
+/-- the interned builder accepts both calls, and all hypotheses of `interned_consensus_cost_of_bundles` hold
+together: the theorem applies and yields the cost equation for an existing accepted block -/
+example : ((ISt.init Gen.costPerByte limitW).accepted opsW).length = 2 ∧
+    ∃ b, native pI gIW (some (quoteCost, .pair (Sexp.ofList sIW.spends) Sexp.nil)) puz1 limitW = .ok b ∧
+      quoteCost + (1800005 + 1800005) = b.executionCost + b.conditionCost ∧ sIW.finalCost = b.cost := by
+  refine ⟨by decide +kernel, ?_⟩
+  have hok : (native pI gIW (some (quoteCost, .pair (Sexp.ofList sIW.spends) Sexp.nil)) puz1 limitW).toBool = true := by
+    decide +kernel
+  cases hn : native pI gIW (some (quoteCost, .pair (Sexp.ofList sIW.spends) Sexp.nil)) puz1 limitW with
+  | error e => rw [hn] at hok; cases hok
+  | ok b =>
+    have hacc2 : (((ISt.init Gen.costPerByte limitW).accepted opsW).map (·.cost)).sum = 1800005 + 1800005 := by decide +kernel
+    obtain ⟨t1, _, t3, _⟩ := interned_consensus_cost_of_bundles Gen.costPerByte limitW ⟨by decide, by decide⟩ opsW smallW pI runW (mpW pI)
+      (fun op hop => (fromW pI (by decide +kernel) (by decide +kernel) (by decide +kernel) (by decide +kernel) op
+        (ISt.mem_accepted _ _ hop)).1)
+      (fun op hop => (fromW pI (by decide +kernel) (by decide +kernel) (by decide +kernel) (by decide +kernel) op
+        (ISt.mem_accepted _ _ hop)).2)
+      sIW rfl gIW puz1 limitW b (by decide) rfl rfl (fun _ _ => rfl) hn
+    rw [hacc2] at t1
+    exact ⟨b, rfl, t1, t3⟩
+
+theorem acceptedW : (ISt.init Gen.costPerByte limitW).accepted opsW = opsW := by
+  have h1 : isAdded ((ISt.init Gen.costPerByte limitW).step (opA 50 3)).2 = true := by decide +kernel
+  have h2 : isAdded (((ISt.init Gen.costPerByte limitW).step (opA 50 3)).1.step (opB 90 50)).2 = true := by decide +kernel
+  simp only [opsW, ISt.accepted, h1, h2, if_true]
+  rfl
+
+/-- … and all hypotheses of the positional form `interned_consensus_cost_of_bundles_reindexed` hold together on the
+same history (`q` = the two bundles' runs in the order added, the block reads them backwards) -/
+example : ∃ b, native pI gIW (some (quoteCost, .pair (Sexp.ofList sIW.spends) Sexp.nil)) puz1 limitW = .ok b ∧
+    sIW.spends = [item csB, item csA] ∧ sIW.finalCost = b.cost := by
+  have hok : (native pI gIW (some (quoteCost, .pair (Sexp.ofList sIW.spends) Sexp.nil)) puz1 limitW).toBool = true := by
+    decide +kernel
+  cases hn : native pI gIW (some (quoteCost, .pair (Sexp.ofList sIW.spends) Sexp.nil)) puz1 limitW with
+  | error e => rw [hn] at hok; cases hok
+  | ok b =>
+    have hrs : [mpRun pI [csA] puz1 limitW, mpRun pI [csB] puz1 limitW] =
+        ((ISt.init Gen.costPerByte limitW).accepted opsW).flatMap (mpW pI) := by rw [acceptedW]; rfl
+    have hseg : SegmentsOf puz1 0 [mpRun pI [csA] puz1 limitW, mpRun pI [csB] puz1 limitW] :=
+      ⟨fun j _ => by rw [mpRun_puz]; rfl, fun j _ => by rw [mpRun_puz]; rfl, trivial⟩
+    obtain ⟨t0, _, _, t3, _⟩ := interned_consensus_cost_of_bundles_reindexed Gen.costPerByte limitW ⟨by decide, by decide⟩ opsW smallW
+      pI puz1 (mpW pI)
+      (fun op hop => (fromW pI (by decide +kernel) (by decide +kernel) (by decide +kernel) (by decide +kernel) op
+        (ISt.mem_accepted _ _ hop)).1)
+      _ hrs hseg sIW rfl gIW puz1 limitW b (by decide) rfl rfl (fun _ _ => rfl) hn
+    refine ⟨b, rfl, ?_, t3⟩
+    rw [t0]
+    simp only [List.flatMap_cons, List.flatMap_nil, MpRun.items, mpRun_css]
+    rfl
+
+/-- the hypotheses of the order-free form `bundles_truthful_total` hold together: the two accepted bundles, the
+block listing their items in the other order -/
+example : ∃ b, native pI gIW (some (quoteCost, .pair (Sexp.ofList [item csB, item csA]) Sexp.nil)) puz1 limitW = .ok b ∧
+    b.executionCost + b.conditionCost =
+      quoteCost + ([mpRun pI [csA] puz1 limitW, mpRun pI [csB] puz1 limitW].map MpRun.declared).sum := by
+  have hok : (native pI gIW (some (quoteCost, .pair (Sexp.ofList [item csB, item csA]) Sexp.nil)) puz1 limitW).toBool = true := by
+    decide +kernel
+  cases hn : native pI gIW (some (quoteCost, .pair (Sexp.ofList [item csB, item csA]) Sexp.nil)) puz1 limitW with
+  | error e => rw [hn] at hok; cases hok
+  | ok b =>
+    refine ⟨b, rfl, (bundles_truthful_total pI runW _ [item csB, item csA] gIW quoteCost puz1 limitW b ?_ ?_ ?_
+      (fun _ _ => rfl) hn).2.2⟩
+    · intro r hr
+      simp only [List.mem_cons, List.not_mem_nil, or_false] at hr
+      rcases hr with rfl | rfl
+      · exact mpRun_accepted (by decide +kernel)
+      · exact mpRun_accepted (by decide +kernel)
+    · intro r hr
+      simp only [List.mem_cons, List.not_mem_nil, or_false] at hr
+      rcases hr with rfl | rfl <;> (intro j _; rw [mpRun_puz]; rfl)
+    · simp only [List.flatMap_cons, List.flatMap_nil, MpRun.items, mpRun_css, List.map_cons, List.map_nil, List.append_nil,
+        List.cons_append, List.nil_append]
+      exact List.Perm.swap _ _ _
+
+def sCW : CSt := (CSt.init Gen.costPerByte limitW).run opsW
+def gCW : GenInput := { len := 92, startsQuote := true, prog := generator sCW.spends, nrefs := 0 }
+
+theorem contractW : ContractAlong (CSt.init Gen.costPerByte limitW) opsW :=
+  ⟨⟨by decide +kernel, by decide +kernel⟩, ⟨by decide +kernel, by decide +kernel⟩, trivial⟩
+
+/-- the same for the compressed builder (serializer sizes 3 → 50 → 90, final length 92) -/
+example : ((CSt.init Gen.costPerByte limitW).accepted opsW).length = 2 ∧
+    ∃ b r, native pC gCW (some (quoteCost, .pair (Sexp.ofList sCW.spends) Sexp.nil)) puz1 limitW = .ok b ∧
+      sCW.finalize 92 = some r ∧ quoteCost + (1800005 + 1800005) = b.executionCost + b.conditionCost ∧ r.2.2 = b.cost := by
+  refine ⟨by decide +kernel, ?_⟩
+  have hok : (native pC gCW (some (quoteCost, .pair (Sexp.ofList sCW.spends) Sexp.nil)) puz1 limitW).toBool = true := by
+    decide +kernel
+  cases hn : native pC gCW (some (quoteCost, .pair (Sexp.ofList sCW.spends) Sexp.nil)) puz1 limitW with
+  | error e => rw [hn] at hok; cases hok
+  | ok b =>
+    have hacc2 : (((CSt.init Gen.costPerByte limitW).accepted opsW).map (·.cost)).sum = 1800005 + 1800005 := by decide +kernel
+    obtain ⟨t1, _, r, hr, t3⟩ := compressed_consensus_cost_of_bundles Gen.costPerByte limitW ⟨by decide, by decide⟩ opsW smallW
+      contractW 92 (by unfold FinContract; decide +kernel) pC runW (mpW pC)
+      (fun op hop => (fromW pC (by decide +kernel) (by decide +kernel) (by decide +kernel) (by decide +kernel) op
+        (CSt.mem_accepted _ _ hop)).1)
+      (fun op hop => (fromW pC (by decide +kernel) (by decide +kernel) (by decide +kernel) (by decide +kernel) op
+        (CSt.mem_accepted _ _ hop)).2)
+      sCW rfl gCW puz1 limitW b (by decide) rfl rfl (fun _ _ => rfl) hn
+    rw [hacc2] at t1
+    exact ⟨b, r, rfl, hr, t1, t3⟩
+end BundleWitness
 
 end ChiaModel.C10
